@@ -248,6 +248,7 @@ class Contract:
         def run(ctx):
             interp = Interp(ctx, reg)
             interp.under_verification = self.func
+            ctx.interp = interp  # setups may run the real function first to build a pre-state WITH A PAST (C10: second read of a getter)
             s = self.setup(ctx)
             s.ctx = ctx
             s.interp = interp
